@@ -90,6 +90,12 @@ static void *reader_main(void *arg)
 			 * act as a quiescent state for the caller */
 			own_h = start_poll_synchronize_rcu();
 			(void) poll_state_synchronize_rcu(own_h);
+			/* stay inside the section for longer than a grace period takes */
+			uint64_t t0 = vp_now_ns(), len = 1500000 + vp_rand_n(&t->rng, 5000000);
+			while (vp_now_ns() - t0 < len) {
+				vp_spin_cycles(50000);
+				(void) poll_state_synchronize_rcu(own_h);
+			}
 		}
 		vp_delay_heavy(&t->rng);
 		for (int i = 0; i < nobj; i++)
